@@ -199,8 +199,9 @@ theorem V2.step_drot (st : V2) (s : Slot) (i : Nat) (hinv : st.Inv) (hc : s.kind
   · have hoff : Generated.KeyNames.v2DestroyIndexOffset = 2 := rfl
     have hrot : (st.abs s).rotated = (r.keys.dropLast.filter Key2.alive).map (·.seq) := by
       rw [V2.abs_of_ring hr]; exact hok.rotated_abs
+    have hi2 : (i < 2) = False := by simp; omega
     simp only [V2.step, hc, not_true_eq_false, if_false, V2.openRW_some st s r hr, hok.rotatedActive, hoff, Spec.step,
-      SpecSlot.destroyRotated, SpecSlot.listedAt, hi, if_true, hrot]
+      SpecSlot.destroyRotated, SpecSlot.listedAt, hi, if_true, hrot, hi2, false_or]
     by_cases hlen : i - 1 > ((r.keys.dropLast.filter Key2.alive).map (·.seq)).length
     · have hnone : ((r.keys.dropLast.filter Key2.alive).map (·.seq))[i - 2]? = none := by
         apply List.getElem?_eq_none; omega
